@@ -132,12 +132,12 @@ class Labware:
             raise ValueError(f"Invalid min_volume: {min_volume}")
         if max_volume is None or max_volume <= min_volume:
             raise ValueError(f"Invalid max_volume: {max_volume}")
-        if rows > 26 or (virtual_rows is not None and virtual_rows > 26):
-            raise ValueError("Labware with more than 26 (virtual) rows is not supported.")
         if virtual_rows is not None and rows != 1:
             raise ValueError("When using virtual_rows, the number of rows must be == 1")
-        if virtual_rows is not None and virtual_rows < 1:
+        if virtual_rows is not None and (not isinstance(virtual_rows, int) or virtual_rows < 1):
             raise ValueError(f"Invalid virtual_rows: {virtual_rows}")
+        if rows > 26 or (virtual_rows is not None and virtual_rows > 26):
+            raise ValueError("Labware with more than 26 (virtual) rows is not supported.")
         if virtual_rows and not isinstance(self, Trough):
             warnings.warn(
                 "Troughs should be created with the robotools.Trough class.",
